@@ -46,3 +46,13 @@ def must_load(text: str) -> intermediate.SymbolTable:
     if st is None:
         raise AssertionError("the template meta-model is rejected by the front end:\n" + str(err))
     return st
+
+
+XSD_ROOT_ELEMENT = """<xs:schema
+        xmlns:xs="http://www.w3.org/2001/XMLSchema"
+        xmlns="https://example.invalid/verif"
+        elementFormDefault="qualified"
+        targetNamespace="https://example.invalid/verif"
+>
+    <xs:element name="something" type="something_t" />
+</xs:schema>"""
